@@ -110,9 +110,12 @@ def polygon_claims(corners, p, nu, L, tau=2e-4, tol=1e-6):
         ej = fr[j][1]
         zone = L.Or(near_end[i], near_start[j])
         cone.append(L.Implies(zone, L.And(L.ge(dot(nu, e), 0), L.le(dot(nu, ej), 0))))
-    return [("edge_interior_is_outward_edge_normal", L.And(*edge)),
-            ("step_against_normal_enters", L.And(*step)),
-            ("corner_zone_in_normal_cone", L.And(*cone))]
+    out = []
+    for i in range(m):  # one claim per edge / corner: small queries
+        out.append(("edge_interior_is_outward_edge_normal(e%d)" % i, edge[i]))
+        out.append(("step_against_normal_enters(e%d)" % i, step[i]))
+        out.append(("corner_zone_in_normal_cone(v%d)" % ((i + 1) % m), cone[i]))
+    return out
 
 
 def polygon_on_edges(corners, p, L):
